@@ -325,4 +325,147 @@ theorem preterminals_all (ds : List Node) :
     · exact preterminals_all ds' d h
 end
 
+/-! ### roots below the top of a tree built by `from_dict` -/
+
+mutual
+/-- no root anywhere in the subtree (the node itself included) -/
+def NoRoot : Node → Bool
+  | .term _ _ => true
+  | .node _ _ _ _ _ _ _ ds => NoRootL ds
+  | .root _ _ => false
+def NoRootL : List Node → Bool
+  | [] => true
+  | d :: ds => NoRoot d && NoRootL ds
+end
+
+mutual
+/-- the entry and every entry below it carries an `id` -/
+def HasIds : D → Bool
+  | .mk _ id _ _ _ _ _ _ _ dtrs =>
+    id.isSome && (match dtrs with
+      | none => true
+      | some ds => HasIdsL ds)
+def HasIdsL : List D → Bool
+  | [] => true
+  | d :: ds => HasIds d && HasIdsL ds
+end
+
+def DtrsHaveIds : D → Bool
+  | .mk _ _ _ _ _ _ _ _ _ dtrs =>
+    match dtrs with
+    | none => true
+    | some ds => HasIdsL ds
+
+theorem dictNode_some_id (entity : Option Str) (i : Int) (score : Option Str) (start stop : Option Int)
+    (type : Option Str) (head : Bool) (dtrs : List Node) (t : Node)
+    (h : dictNode entity (some i) score start stop type head dtrs = .ok t) :
+    NoRoot t = NoRootL dtrs := by
+  cases entity with
+  | none => simp [dictNode] at h
+  | some e =>
+    simp only [dictNode] at h
+    cases h
+    simp [NoRoot]
+
+theorem dictNode_dtrs (entity : Option Str) (id : Option Int) (score : Option Str) (start stop : Option Int)
+    (type : Option Str) (head : Bool) (dtrs : List Node) (t : Node)
+    (h : dictNode entity id score start stop type head dtrs = .ok t) : t.dtrs = dtrs := by
+  cases entity with
+  | none => simp [dictNode] at h
+  | some e =>
+    cases id with
+    | some i => simp only [dictNode] at h; cases h; rfl
+    | none =>
+      simp only [dictNode] at h
+      split at h
+      · cases h
+      · cases h; rfl
+
+mutual
+theorem fromDictAux_noRoot : (d : D) → HasIds d = true → (t : Node) → fromDictAux d = .ok t →
+    NoRoot t = true
+  | .mk entity id score start stop type head form tokens (some ds), h, t, ht => by
+    simp only [HasIds, Bool.and_eq_true, Option.isSome_iff_exists] at h
+    obtain ⟨⟨i, hi⟩, hds⟩ := h
+    subst hi
+    simp only [fromDictAux] at ht
+    cases entity with
+    | none => simp at ht
+    | some e =>
+      simp only at ht
+      cases hl : fromDictList ds with
+      | error err => simp [hl] at ht
+      | ok dtrs =>
+        simp only [hl] at ht
+        rw [dictNode_some_id _ _ _ _ _ _ _ _ _ ht]
+        exact fromDictList_noRoot ds hds dtrs hl
+  | .mk entity id score start stop type head form tokens none, h, t, ht => by
+    simp only [HasIds, Bool.and_eq_true, Option.isSome_iff_exists] at h
+    obtain ⟨⟨i, hi⟩, _⟩ := h
+    subst hi
+    simp only [fromDictAux] at ht
+    cases form with
+    | none => simp at ht
+    | some f =>
+      simp only at ht
+      rw [dictNode_some_id _ _ _ _ _ _ _ _ _ ht]
+      simp [NoRootL, NoRoot]
+theorem fromDictList_noRoot : (ds : List D) → HasIdsL ds = true → (ts : List Node) →
+    fromDictList ds = .ok ts → NoRootL ts = true
+  | [], _, ts, ht => by simp only [fromDictList] at ht; cases ht; rfl
+  | d :: ds', h, ts, ht => by
+    simp only [HasIdsL, Bool.and_eq_true] at h
+    simp only [fromDictList] at ht
+    cases h1 : fromDictAux d with
+    | error err => simp [h1] at ht
+    | ok n =>
+      cases h2 : fromDictList ds' with
+      | error err => simp [h1, h2] at ht
+      | ok ns =>
+        simp only [h1, h2] at ht
+        cases ht
+        simp [NoRootL, fromDictAux_noRoot d h.1 n h1, fromDictList_noRoot ds' h.2 ns h2]
+end
+
+theorem fromDictAux_dtrs_noRoot (d : D) (h : DtrsHaveIds d = true) (t : Node)
+    (ht : fromDictAux d = .ok t) : NoRootL t.dtrs = true := by
+  cases d with
+  | mk entity id score start stop type head form tokens daughters =>
+    cases daughters with
+    | some ds =>
+      simp only [fromDictAux] at ht
+      cases entity with
+      | none => simp at ht
+      | some e =>
+        simp only at ht
+        cases hl : fromDictList ds with
+        | error err => simp [hl] at ht
+        | ok dtrs =>
+          simp only [hl] at ht
+          rw [dictNode_dtrs _ _ _ _ _ _ _ _ _ ht]
+          exact fromDictList_noRoot ds (by simpa [DtrsHaveIds] using h) dtrs hl
+    | none =>
+      simp only [fromDictAux] at ht
+      cases form with
+      | none => simp at ht
+      | some f =>
+        simp only at ht
+        rw [dictNode_dtrs _ _ _ _ _ _ _ _ _ ht]
+        simp [NoRootL, NoRoot]
+
+theorem topCheck_ok_eq (n t : Node) (h : topCheck n = .ok t) : n = t ∧ t.dtrs.any Node.isRoot = false := by
+  unfold topCheck at h
+  split at h
+  · cases h
+  · rename_i hany
+    have hnt : n = t := by
+      split at h
+      · split at h
+        · cases h
+        · exact Except.ok.inj h
+      · cases h
+      · exact Except.ok.inj h
+    subst hnt
+    exact ⟨rfl, by simpa using hany⟩
+
 end Verif.C16
